@@ -83,6 +83,7 @@ def run(S):
     inclusion_tables(S, D)
     stats_and_build(S, D, N)
     send_limits(S, D, 1 if S.tier == 'quick' else 2)
+    closing(S, D)
 
 
 def leafs(S, D):
@@ -684,3 +685,81 @@ def dust_exposure_limit(S, D, N, prefix='C02.d'):
     S.prove(prefix + '.dust_exposure_within_limit', E, pre, z3.And(new_l <= maxdust.t, new_r <= maxdust.t),
             'an HTLC inside the reported send limits never pushes the dust exposure of our or the counterparty commitment above max_dust_htlc_exposure_msat (when it was within the limit before)',
             binds, bounds='N=%d pending HTLCs, all amounts/feerates/dust limits within Pre, no dust-exposure limiting feerate' % N, split=case, given_no_panic=True)
+
+
+# ---- C01.f: cooperative close arithmetic ------------------------------------------------------
+def closing(S, D):
+    import re
+
+    def run_side(E, mem, name, funder_b, V, Sself, dust, fee, skip):
+        """build_closing_transaction on one node's view; returns (ok, to_holder, to_counterparty, total_fee, panics)"""
+        f = S.fn('build_closing_transaction', first_param='FundedChannel')
+        obs = {}
+
+        def h_new(E_, m, func, argv, *r):
+            obs['h'], obs['c'] = argv[0], argv[1]
+            return X.Opaque('ClosingTransaction')
+        E.models.insert(0, (re.compile(r'ClosingTransaction::new$'), h_new))
+        E.models.insert(0, (re.compile(r'FundingScope::is_outbound$'), lambda *a: funder_b))
+        E.models.insert(0, (re.compile(r'FundingScope::get_value_satoshis$'), lambda *a: V))
+        E.models.insert(0, (re.compile(r'::funding_outpoint$|::get_closing_scriptpubkey$|::into_bitcoin_outpoint$'), lambda *a: X.Opaque('script/outpoint')))
+        chan = E.sym(name, f.params[0][1], mem)
+        cv = mem[chan.cell]
+        # plant the symbolic balance / dust limit into the lazy channel struct
+        FC = D.struct_fields('FundedChannel')
+        funding = E.read_path(cv, (('f', FC.index('funding'), 'ln::channel::FundingScope'),), mem, True, 'spec')
+        context = E.read_path(cv, (('f', FC.index('context'), 'ln::channel::ChannelContext<SP>'),), mem, True, 'spec')
+        vts = field(E, D, 'FundingScope', 'value_to_self_msat', funding, 'u64', hint='ln/channel.rs')
+        hd = field(E, D, 'ChannelContext', 'holder_dust_limit_satoshis', context, 'u64')
+        E.assume(vts.t == Sself)
+        E.assume(hd.t == dust)
+        # shutdown scripts are present once shutdown has been exchanged
+        for nm, ty in (('shutdown_scriptpubkey', 'Option<ln::script::ShutdownScript>'), ('counterparty_shutdown_scriptpubkey', 'Option<bitcoin::ScriptBuf>')):
+            o = field(E, D, 'ChannelContext', nm, context, ty)
+            E.assume(X.zint(o.d) == 1)
+        upd = field(E, D, 'ChannelContext', 'pending_update_fee', context, 'Option<(u32, ln::channel::FeeUpdateState)>')
+        E.assume(X.zint(upd.d) == 0)
+        npan = len(E.panics)
+        rv = S.call(E, f, [chan, fee, skip], mem)
+        ret = S.ret_guard
+        if 'h' not in obs:
+            raise Inconclusive('ClosingTransaction::new not reached')
+        ok = z3.And(ret, X.zint(rv.d) == 0)
+        total_fee = rv.vs[0][0].fs[1].t
+        return ok, obs['h'].t, obs['c'].t, total_fee, E.panics[npan:]
+
+    # node A's and node B's view of the same channel (B is A's counterparty): equal dust limits
+    E = S.engine()
+    E.slice_cap = 0         # no pending HTLCs (asserted by the function)
+    mem = {}
+    funder = E.sym('a_is_funder', 'bool')
+    V, Sa, dust, fee = E.sym('V', 'u64'), E.sym('S', 'u64'), E.sym('dust', 'u64'), E.sym('fee', 'u64')
+    skip = E.sym('skip', 'bool')
+    okA, hA, cA, feeA, panA = run_side(E, mem, 'chanA', funder, V, Sa.t, dust.t, fee, skip)
+    Sb = X.I(V.t * 1000 - Sa.t, 'u64')
+    okB, hB, cB, feeB, panB = run_side(E, mem, 'chanB', X.B(z3.Not(X.zbool(funder.t))), V, V.t * 1000 - Sa.t, dust.t, fee, X.B(False))
+    bal_a = Sa.t / 1000
+    bal_b = (V.t * 1000 - Sa.t) / 1000
+    fund = X.zbool(funder.t)
+    pre = [V.t <= SUPPLY_SAT, V.t >= 1000, Sa.t <= V.t * 1000, dust.t >= 354, dust.t <= 10000,
+           # the negotiated fee is affordable by the funder (enforced by the closing_signed fee-range checks)
+           z3.If(fund, fee.t <= bal_a, fee.t <= bal_b)]
+    bA = Binding('closing_probe', [funder.t, Sa.t, dust.t, fee.t, skip.t], [z3.If(okA, 0, 1), z3.If(okA, hA, 0), z3.If(okA, cA, 0), z3.If(okA, feeA, 0)],
+                 panic=z3.Or(*[X.zbool(p[0]) for p in panA]) if panA else False, which='oracle_tu')
+    nf, sb_, ff = z3.Bool('o.b_is_funder'), z3.Int('o.Sb'), z3.Bool('o.false')
+    E.assume(nf == z3.Not(fund)); E.assume(sb_ == V.t * 1000 - Sa.t); E.assume(ff == False)
+    bB = Binding('closing_probe', [nf, sb_, dust.t, fee.t, ff], [z3.If(okB, 0, 1), z3.If(okB, hB, 0), z3.If(okB, cB, 0), z3.If(okB, feeB, 0)],
+                 panic=z3.Or(*[X.zbool(p[0]) for p in panB]) if panB else False, which='oracle_tu')
+    native = [V.t == 100000]       # the two-node probe uses the functional-test channel of 100_000 sat
+    S.witness('C01.f.witness', E, pre + native + [z3.Not(X.zbool(skip.t))], z3.And(okA, okB, hA > 0, cA > 0))
+    S.prove('C01.f.peers_agree', E, pre + native + [z3.Not(X.zbool(skip.t))], z3.And(okA, okB, hA == cB, cA == hB, feeA == feeB),
+            'for equal dust limits both peers build the same closing transaction from mirrored state: A\'s own output equals what B pays A and vice versa, with the same total fee - so honest cooperative closes never end in a signature mismatch',
+            [bA, bB], bounds='all balances / fees / dust limits within Pre; channel value fixed to 100000 sat for native replay')
+    S.prove('C01.f.pays_final_balances', E, pre + [z3.Not(X.zbool(skip.t))], z3.Implies(okA, z3.And(
+        hA == z3.If(bal_a - z3.If(fund, fee.t, 0) > dust.t, bal_a - z3.If(fund, fee.t, 0), 0),
+        cA == z3.If(bal_b - z3.If(fund, 0, fee.t) > dust.t, bal_b - z3.If(fund, 0, fee.t), 0),
+        hA + cA + fee.t <= V.t)),
+        'a cooperative close pays each party its final balance (rounded down to whole satoshis), less the negotiated fee for the funder only; outputs at or below the dust limit are dropped; outputs + fee never exceed the channel value',
+        [bA], bounds='all channel values <= 21e14 sat')
+    S.no_panic('C01.f.nopanic', E, pre, 'no overflow / failed assert when the funder can afford the fee')
+    S.no_panic('C01.f.nopanic_native', E, pre + native, 'same, at the channel value the native probe uses', [bA, bB])
